@@ -162,11 +162,21 @@ def seed_fresh_interpreter(ctx, rule="OWN-seed-fresh"):
         for n in ast.walk(mm.tree):
             if isinstance(n, ast.Name) and n.id == "_fake_key" and isinstance(n.ctx, ast.Load) and ctx.p.resolve_name(mn, "_fake_key") == PJ + "_fake_key":
                 fk.append((mn, n))
-    m = ctx.p.modules["genjax.pjax"]
     good = 0
+    FK = N(PJ + "_fake_key")
     for mn, n in fk:
-        par = [c for c in ast.walk(ctx.p.modules[mn].tree) if isinstance(c, ast.Call) and any(a is n for a in c.args)]
-        if par and isinstance(par[0].func, ast.Call) and "_make_flat" in unp(par[0].func.func) and par[0].args[0] is n:
+        # the enclosing function, evaluated: every call the key reaches is the staged call self._make_flat(...)(_fake_key, …)
+        encl = [(c, f) for c in ctx.p.modules[mn].tree.body if isinstance(c, ast.ClassDef) for f in c.body
+                if isinstance(f, ast.FunctionDef) and any(x is n for x in ast.walk(f))]
+        if len(encl) != 1:
+            continue
+        ev2 = mk_ev(ctx)
+        s2 = summarize(ctx, ev2, f"{mn}.{encl[0][0].name}.{encl[0][1].name}")
+        reach = list(dict.fromkeys(e[2] for e in s2.events if e[1] == "call" and FK in direct_args(e[2])))
+        staged_ok = [t for t in reach if is_call(t[1]) and t[1][1][0] == "attr" and t[1][1][2] == "_make_flat" and t[2] and t[2][0] == FK
+                     and not any(x == FK for a in t[2][1:] for x in subterms(a)) and not any(x == FK for _, v in t[3] for x in subterms(v))]
+        stored_fk = [e for e in s2.events if e[1] == "store" and any(x == FK for x in subterms(e[2][1])) and not any(is_call(x) for x in subterms(e[2][1]))]
+        if reach and len(staged_ok) == len(reach) and not stored_fk:
             good += 1
     if len(fk) != 1 or good != 1:
         ctx.bad(rule, "pjax._fake_key", "only a positional staging argument", f"{len(fk)} uses, {good} as the first argument of a staged call", "src/genjax/pjax.py")
@@ -185,6 +195,8 @@ def flat_cache_key(ctx, rule="DEP-cache-key"):
     k = key
     while k[0] == "ifexp":
         k = k[2] if k[2][0] != "attr" else k[3]
+    from .util import expand_class_calls
+    k = expand_class_calls(ev, k)
     ARGS = ("param", "args")
     AVAL_WORDS = ("shape", "dtype", "get_aval", "get_shaped_aval", "typeof", "result_type", "ShapedArray", "aval")
     shape_dep = struct_dep = False
@@ -976,8 +988,8 @@ def dummy_protocol_events(ctx, rule="SIB-dummy-arg"):
                 ctx.bad(rule, construct, "bind(dummy_arg, *operands, axis_size=axis_size, ctx='modular_vmap', **params)", f"found {short(b, ev, 260)}", loc)
     injected = injected or 1
     # reader 1: abstract rule strips the dummy aval under ctx == 'modular_vmap'
-    anode, amod = fnode(ctx, PJ + "initial_style_bind")
-    abstract = [f for f in ast.walk(anode) if isinstance(f, ast.FunctionDef) and f.name == "abstract"]
+    rule_fns_, amod = isb_rule_functions(ctx)
+    abstract = [rule_fns_["abstract"]] if "abstract" in rule_fns_ else []
     ctx.need(len(abstract) == 1, "initial_style_bind.abstract not found")
     strips = [st for st in ast.walk(abstract[0]) if isinstance(st, ast.Assign) and isinstance(st.value, ast.Subscript) and isinstance(st.value.slice, ast.Slice)
               and unp(st.targets[0]) == unp(st.value.value)]
@@ -1157,6 +1169,10 @@ def lowering_guard_terms(ctx, rule="GUARD-lowering"):
     ev2 = mk_ev(ctx)
     s2 = summarize(ctx, ev2, PJ + "PPPrimitive.__init__")
     clo2 = s2.env.get("lowering")
+    if clo2 is None:
+        # the rule registered for lowering, however it was built (e.g. by a forwarding-rule factory method)
+        reg_ = [e[2][2][1] for e in s2.events if e[1] == "call" and e[2][1] == N("jax.interpreters.mlir.register_lowering") and len(e[2][2]) == 2]
+        clo2 = reg_[0] if len(reg_) == 1 else None
     ok = clo2 is not None and clo2[0] == "closure"
     if ok:
         r2 = ev2.apply_closure(clo2, (("star", ("param", "a_")),), ((None, PR),))
@@ -1170,6 +1186,32 @@ def lowering_guard_terms(ctx, rule="GUARD-lowering"):
         ctx.ok(rule, "pjax.PPPrimitive.lowering", "forwards to the wrapped primitive's guard with the hidden params")
     else:
         ctx.bad(rule, "pjax.PPPrimitive.lowering", "forward with hidden params", f"found {short(r2, ev2, 200) if clo2 else None}", func_loc(ctx, PJ + "PPPrimitive.__init__"))
+
+
+def isb_rule_functions(ctx):
+    """The default rule functions of initial_style_bind, wherever they live: its nested defs and the module-level functions it references
+    (transitively) — {kind: FunctionDef} for kind in impl/abstract/batch/jvp, recognised by the kind appearing in the function's name."""
+    node, mod = fnode(ctx, PJ + "initial_style_bind")
+    mod_funcs = {st.name: st for st in mod.tree.body if isinstance(st, ast.FunctionDef)}
+    reach, todo = [], [node]
+    seen = {id(node)}
+    while todo:
+        f = todo.pop()
+        for n in ast.walk(f):
+            if isinstance(n, ast.FunctionDef) and n is not f and id(n) not in seen:
+                seen.add(id(n))
+                reach.append(n)
+            if isinstance(n, ast.Name) and n.id in mod_funcs and id(mod_funcs[n.id]) not in seen:
+                seen.add(id(mod_funcs[n.id]))
+                reach.append(mod_funcs[n.id])
+                todo.append(mod_funcs[n.id])
+    out = {}
+    for f in reach:
+        for kind in ("abstract", "batch", "jvp", "impl"):
+            if kind in f.name and kind not in out and f.name not in ("initial_style_bind",):
+                out[kind] = f
+                break
+    return out, mod
 
 
 def sample_transform_rules(ctx, rule="OWN-keyless-impl"):
@@ -1192,14 +1234,13 @@ def sample_transform_rules(ctx, rule="OWN-keyless-impl"):
     ctx.need(len(binds) >= 1, f"{dotted}: bind site not found (anchor vanished)")
     overridden = {k for b in binds for k, v in b[3] if k is not None}
     # default rules of initial_style_bind that re-trace impl
-    node, mod = fnode(ctx, PJ + "initial_style_bind")
+    rule_fns, mod = isb_rule_functions(ctx)
     defaults = {}
-    for f in ast.walk(node):
-        if isinstance(f, ast.FunctionDef) and f.name in ("batch", "jvp", "abstract", "impl"):
-            names = {n.id for n in ast.walk(f) if isinstance(n, ast.Name)}
-            consults = any(isinstance(n, ast.Constant) and n.value in ("lowering_exception", "lowering_warning") for n in ast.walk(f)) or \
-                any(isinstance(n, ast.Raise) for n in ast.walk(f))
-            defaults[f.name] = ("impl" in names and f.name != "impl", consults, f.lineno)
+    for kind, f in rule_fns.items():
+        names = {n.id for n in ast.walk(f) if isinstance(n, ast.Name)} | {a.arg for a in f.args.posonlyargs + f.args.args}
+        consults = any(isinstance(n, ast.Constant) and n.value in ("lowering_exception", "lowering_warning") for n in ast.walk(f)) or \
+            any(isinstance(n, ast.Raise) for n in ast.walk(f))
+        defaults[kind] = ("impl" in names and kind != "impl", consults, f.lineno)
     ctx.need({"batch", "jvp"} <= set(defaults), "initial_style_bind: default batch/jvp rules not found (anchor vanished)")
     for name in ("batch", "jvp"):
         retraces, consults, ln = defaults[name]
@@ -1387,7 +1428,8 @@ def logdensity_batch_terms(ctx, rule="ROLE-logdensity-batch"):
     ax = items(axes)
     n = call(N(PJ + "static_dim_length"), BA, call(N("builtins.tuple"), VA))
     n2 = call(N(PJ + "static_dim_length"), BA, VA)
-    if not (ax and len(ax) == 1 and ax[0] in (("ifexp", n, C(0), NONE), ("ifexp", n2, C(0), NONE))):
+    n3 = call(N(PJ + "static_dim_length"), BA, ("tuple", (("star", VA),)))
+    if not (ax and len(ax) == 1 and ax[0] in (("ifexp", n, C(0), NONE), ("ifexp", n2, C(0), NONE), ("ifexp", n3, C(0), NONE))):
         problems.append(f"out axis 0 iff some operand is batched (found {short(axes, ev, 120)})")
     if problems:
         for p_ in dict.fromkeys(problems):
@@ -1413,9 +1455,51 @@ def nested_jaxpr_seeded_events(ctx, rule="OWN-nested-key-stream"):
         evs = [e for k, v in by.items() if kind in k for e in v]
         construct = f"pjax.Seed.eval_jaxpr_seed[{kind}]"
         ctx.need(bool(evs), f"{construct}: arm not found (anchor vanished)")
+        # a module-level body function handed the sub-jaxpr — called directly, applied as a partial(...) term, or built with
+        # functools.partial(F, jaxpr_as_fun(sub), …) — is judged by its own calls, evaluated on these arguments
+        from .util import apply_fn_summary
+        skip_partial = set()
 
         def is_sub(t):
             return t[0] == "idx" and is_const(t[2], key)
+
+        def repo_fn(f):
+            if f[0] == "name" and f[1].startswith("genjax.") and f[1] != PJ + "seed":
+                look = ev.p.lookup(f[1])
+                return look if look is not None and look[0] == "func" else None
+            return None
+
+        def expand_term(x, guards, depth=0):
+            out = []
+            if depth > 3 or not is_call(x) or x in skip_partial or not any(is_sub(y) for y in subterms(x)):
+                return out
+            r = None
+            if x[1] == N("functools.partial") and x[2] and repo_fn(x[2][0]) is not None:
+                a = repo_fn(x[2][0])[1].args
+                given = tuple(x[2][1:])
+                rest = tuple(("param", f"pa{i}_") for i in range(max(0, len(a.posonlyargs) + len(a.args) - len(given))))
+                r = apply_fn_summary(ev, x[2][0], given + rest, tuple(x[3]))
+            elif x[1][0] == "partial" and repo_fn(x[1][1]) is not None:
+                r = apply_fn_summary(ev, x[1], tuple(x[2]), tuple(x[3]))
+            elif repo_fn(x[1]) is not None:
+                r = apply_fn_summary(ev, x[1], tuple(x[2]), tuple(x[3]))
+            if r is not None:
+                skip_partial.add(x)
+                for q in r[1]:
+                    out.append((guards, q[1], q[2], q[3]) + tuple(q[4:]))
+                    if q[1] == "call":
+                        out += expand_term(q[2], guards, depth + 1)
+            return out
+        expanded = []
+        for e in evs:
+            if e[1] == "call":
+                for x in subterms(e[2]):
+                    expanded += expand_term(x, e[0])
+        for rec in ev.scans.values():
+            for x in subterms(rec.get("body") or NONE):
+                expanded += expand_term(x, ())
+        evs = [e for e in evs if not (e[1] == "call" and e[2] in skip_partial)] + expanded
+
         bad = []
         seen_seed = False
         for e in evs:
@@ -1444,12 +1528,16 @@ def nested_jaxpr_seeded_events(ctx, rule="OWN-nested-key-stream"):
                 if not is_call(x):
                     continue
                 asfun = lambda y: is_call(y) and y[1][0] == "name" and y[1][1].endswith("jaxpr_as_fun")
+                if x in skip_partial:
+                    continue
                 if asfun(x[1]) or (any(asfun(a) for a in direct_args(x)) and not is_call(x, name=PJ + "seed")
                                    and not (x[1][0] == "name" and x[1][1] in ("builtins.tuple", "builtins.list"))):
                     bad.append((x, e[3]))
         pool = [e[2] for e in evs if e[1] == "call"] + [rec.get("body") or NONE for rec in ev.scans.values()]
         for t in pool:
             for x in subterms(t):
+                if x in skip_partial:
+                    continue
                 if is_call(x, name=PJ + "seed") and any(is_sub(y) for y in subterms(x)):
                     seen_seed = True
                 # the seeded function's own un-seeded twin inside a scan body / comprehension
@@ -1537,11 +1625,13 @@ def flat_sampler_staging(ctx, rule="ROLE-flat-sampler"):
     F = ("param", "f")
     st = ("call", call(N(PJ + "stage"), F), (("star", A_),), ((None, K_),))
     it = items(r)
-    ok = it is not None and len(it) == 2 and it[0][0] == "closure"
+    ok = it is not None and len(it) == 2 and it[0][0] in ("closure", "partial")
     why = f"returns {short(r, ev, 120)}"
     if ok:
         FA, PR = ("param", "fa_"), ("param", "pr_")
-        b = ev.apply_closure(it[0], (("star", FA),), ((None, PR),))
+        from .util import apply_fn_summary as _afs
+        rb = _afs(ev, it[0], (("star", FA),), ((None, PR),))
+        b = rb[0] if rb is not None else NONE
         ok = is_call(b) and b[1][0] == "name" and b[1][1].split(".")[-1] == "eval_jaxpr" and any(x == st for x in subterms(b))
         why = f"flat(*flat_args, **params) = {short(b, ev, 160)}"
         if ok:
